@@ -477,13 +477,37 @@ def cli_part(chk, scratch, n_pairs):
         home = os.path.join(d, "home")
         opts = ["-d", ("nanopore", "pacbio_ccs", "assembly")[i % 3], "-g", os.path.join(d, "a.gtf"), "--complete_genedb",
                 "-r", os.path.join(d, "g.fa"), "-t", str(1 + i % 2), "--no_gzip", "--force"]
-        if i % 2 == 0:
+        bam_args = ["--bam", os.path.join(d, "r.bam")]
+        if i % 6 == 0:
             opts += ["--count_exons", "--read_group", "tag:RG", "--bam_tags", "RG"]
+        elif i % 6 == 2:
+            # groups from a table (the restarted run gets the very same options; the groups are stored with the saved assignments)
+            with open(os.path.join(d, "groups.tsv"), "w") as f_:
+                for n_ in sorted(set(r.name for r in w.reads)):
+                    if hash(n_) % 7:
+                        f_.write("%s\tgrp%d\n" % (n_, hash(n_) % 3))
+            opts += ["--count_exons", "--read_group", "file:" + os.path.join(d, "groups.tsv"), "--bam_tags", "RG"]
+        elif i % 6 == 4:
+            # one experiment of two files, grouped by file (explicitly, or implicitly because there are two files): novel transcripts must
+            # then be supported by reads of both files, and the restarted run sees ONE saved prefix instead of two files
+            import zlib
+            # the reads of every second unannotated isoform are all in the first file (such a model is not reported by the saving run)
+            one_file_ = set(t_.id for g_ in w.genes for k_, t_ in enumerate(g_.hidden) if (k_ + len(g_.id)) % 2 == 0)
+            chk.count("reuse_unannotated_isoforms_seen_in_one_file_only", len(one_file_))
+
+            def file_of_(r):
+                if isinstance(r.truth, dict) and r.truth.get("src") in one_file_:
+                    return 0
+                return zlib.crc32(r.name.encode()) % 3 % 2
+            for fi_ in (0, 1):
+                w.write_bam(os.path.join(d, "rep%d.bam" % fi_), reads=[r for r in w.reads if file_of_(r) == fi_])
+            bam_args = ["--bam", os.path.join(d, "rep0.bam"), os.path.join(d, "rep1.bam")]
+            opts += ["--count_exons"] + (["--read_group", "file_name"] if i % 12 == 4 else [])
         if i % 3 == 1:
             opts += ["--check_canonical", "--sqanti_output"]
         if i % 4 == 1:
             opts += ["--high_memory"]
-        r1 = runner.run_isoquant(["-o", os.path.join(d, "o1"), "--bam", os.path.join(d, "r.bam"), "-p", "SMP", "--keep_tmp"] + opts, home)
+        r1 = runner.run_isoquant(["-o", os.path.join(d, "o1")] + bam_args + ["-p", "SMP", "--keep_tmp"] + opts, home)
         r2 = None
         saved = {}
         if r1["rc"] == 0:
@@ -500,6 +524,17 @@ def cli_part(chk, scratch, n_pairs):
                 # the saved assignments are reusable more than once: the same restart again, into another folder
                 saved["again"] = runner.run_isoquant(["-o", os.path.join(d, "o3"), "--read_assignments", os.path.join(d, "o1", "SMP", "aux", "SMP.save"),
                                                       "-p", "SMP"] + opts, home)
+        if r1["rc"] == 0 and i % 6 == 0:
+            # a second saving run with the same options on other data (every second read), then ONE run restarted from both saved prefixes:
+            # experiment k of that run is what the k-th saving run produced
+            import zlib
+            w.write_bam(os.path.join(d, "r_b.bam"), reads=[r for r in w.reads if zlib.crc32(r.name.encode()) % 2 == 0])
+            rb = runner.run_isoquant(["-o", os.path.join(d, "o1b"), "--bam", os.path.join(d, "r_b.bam"), "-p", "SMP", "--keep_tmp"] + opts, home)
+            if rb["rc"] == 0:
+                saved["both"] = runner.run_isoquant(["-o", os.path.join(d, "o4"), "--read_assignments", os.path.join(d, "o1", "SMP", "aux", "SMP.save"),
+                                                     os.path.join(d, "o1b", "SMP", "aux", "SMP.save"), "-p", "SMP"] + opts, home)
+            else:
+                saved["both_saving_failed"] = rb["out"][-300:]
         r1["saved"] = saved
         return d, r1, r2, opts
 
@@ -537,6 +572,29 @@ def cli_part(chk, scratch, n_pairs):
                     if not os.path.exists(p3) or runner.normalized(p2) != runner.normalized(p3):
                         chk.violation("reuse:second-restart-differs:" + fn.split(".", 1)[1], "%s differs between the first and the second run from the same saved assignments" % fn, {"opts": opts})
                 chk.count("second_restarts_compared")
+        if sv.get("both_saving_failed"):
+            chk.inconclusive.append("second saving run of CLI pair %d failed: %s" % (i, sv["both_saving_failed"]))
+        if sv.get("both") is not None:
+            r4 = sv["both"]
+            chk.note()
+            if r4["rc"] is None:
+                chk.inconclusive.append("watchdog expired in the restart from two saved prefixes of CLI pair %d" % i)
+            elif r4["rc"] != 0:
+                chk.violation("reuse:run-from-two-saved-prefixes-failed", "--read_assignments with two saved prefixes exited %s: %s" % (r4["rc"], r4["out"][-300:]), {"opts": opts})
+            else:
+                for k_, src_ in enumerate(("o1", "o1b")):
+                    for fn in sorted(os.listdir(os.path.join(d, src_, "SMP"))):
+                        p1_ = os.path.join(d, src_, "SMP", fn)
+                        p4_ = os.path.join(d, "o4", "SMP%d" % k_, fn.replace("SMP.", "SMP%d." % k_, 1))
+                        if os.path.isdir(p1_):
+                            continue
+                        a_ = [l for l in runner.normalized(p1_).split(b"\n") if not l.endswith(b"IsoQuant generated GTF")]
+                        b_ = [l for l in runner.normalized(p4_).split(b"\n") if not l.endswith(b"IsoQuant generated GTF")] if os.path.exists(p4_) else None
+                        if a_ != b_:
+                            chk.violation("reuse:two-saved-prefixes:experiment-differs:" + fn.split(".", 1)[1],
+                                          "experiment %d of the run restarted from two saved prefixes: %s %s" % (k_, fn, "is missing" if b_ is None else "differs from the run that saved it"),
+                                          {"opts": opts})
+                chk.count("restarts_from_two_saved_prefixes_compared")
         # (d) the statistics the saving run worked with are the ones the restarted run reads back
         stat = []
         for r_ in (r1, r2):
@@ -665,7 +723,7 @@ def run(chk, scratch):
     thorough = chk.tier == "thorough"
     n_obj = 600000 if thorough else 24000
     n_streams = 5000 if thorough else 240
-    n_pairs = 24 if thorough else 3
+    n_pairs = 24 if thorough else 5
     chk.rule = ("generated values over the format's representable domain (uints < 2^32-1 incl. sentinels, signed < 2^31, None ids, empty lists, "
                 "all enum members, strings up to 65534 chars incl. non-ASCII group names, penalties multiples of 2^-20); random streams of gene-info/"
                 "assignment records through both real loaders; real --keep_tmp files re-encoded, the files of resolved multi-mapped reads read back (every record in the file of its own chromosome, every alignment of a read saved more than once present); --read_assignments reuse pairs (polyA-poor and polyA-rich data, multi-mapped reads, --high_memory saving runs; assignment statistics and every output compared). "
